@@ -1120,6 +1120,7 @@ fn c06_rulespec_wide_search() {
     rule_spec_body(false, true, false);
 }
 
+
 // ------------------------------------------------------------------ C17, compositional: the generic search can only `push` into its list
 // (trait DateTimeList has that single method), so it issues the same push sequence to both list types; this harness decides that for
 // EVERY push sequence (<= 4 arbitrary entries) the buffer list is the min(n,k)-prefix view of the allocating list, for every buffer length.
